@@ -1023,6 +1023,86 @@ def reload_cases(rng, n):
         shutil.rmtree(root, ignore_errors=True)
 
 
+def import_edit_export_cases(rng, n):
+    """import -> editing session with undo -> export -> import: a GEFF store whose nodes and edges carry custom
+    (loaded, not computed) properties is imported with them requested as static features; the session deletes
+    edges / nodes and undoes that (and redoes and undoes again); then every loaded value must still be on its node
+    / edge, and a GEFF export followed by the same import must reproduce the first import.
+    Yields (description, complaint or None)."""
+    import shutil
+    import tempfile
+
+    import networkx as nx
+    from funtracks.data_model import SolutionTracks
+    from funtracks.import_export import export_to_geff, import_from_geff
+    from funtracks.user_actions import UserDeleteEdge, UserDeleteNode
+
+    root = Path(tempfile.mkdtemp(prefix="funverif."))
+
+    def snap(t):
+        return ({int(n_): (int(t.get_time(n_)), [float(x) for x in t.get_position(n_)], int(t.get_track_id(n_)), pyv(t.graph.nodes[n_].get("marker")))
+                 for n_ in t.graph.nodes},
+                {(int(u), int(v)): pyv(t.graph.edges[u, v].get("score")) for u, v in t.graph.edges})
+
+    try:
+        for k in range(n):
+            nn = rng.randint(3, 7)
+            ids = rng.sample(range(1, 60), nn)
+            g = nx.DiGraph()
+            for j, i_ in enumerate(ids):
+                g.add_node(i_, time=j // 2, pos=[float(rng.randint(0, 30)), float(rng.randint(0, 30))], marker=rng.randint(1, 9))
+            for j in range(2, nn):
+                if rng.random() < 0.8:
+                    g.add_edge(ids[j - 2], ids[j], score=rng.choice([0.0, 0.125, 0.25, 0.5, 0.75]))
+            if g.number_of_edges() == 0:
+                g.add_edge(ids[0], ids[2], score=0.5)
+            desc = {"case": k, "nodes": {int(i_): dict(g.nodes[i_]) for i_ in ids}, "edges": [[int(u), int(v), g.edges[u, v]["score"]] for u, v in g.edges]}
+            try:
+                src = SolutionTracks(g, time_attr="time", pos_attr="pos", ndim=3)
+                d0, d1 = root / ("a%d.zarr" % k), root / ("b%d.zarr" % k)
+                export_to_geff(src, d0)
+
+                def imp(d):
+                    return import_from_geff(d / "tracks", node_name_map={"time": "time", "pos": ["y", "x"], "track_id": "track_id", "lineage_id": "lineage_id", "marker": "marker"},
+                                            edge_name_map={"score": "score"}, node_features={"marker": False}, edge_features={"score": False})
+                tr = imp(d0)
+                first = snap(tr)
+                bad = None
+                if any(v is None for v in first[1].values()) or any(v[3] is None for v in first[0].values()):
+                    bad = "a loaded property is missing right after the import: %s" % (first,)
+                steps = 0
+                if bad is None:
+                    for _ in range(rng.randint(1, 3)):
+                        if rng.random() < 0.6 and tr.graph.number_of_edges():
+                            UserDeleteEdge(tr, rng.choice(sorted(tr.graph.edges)))
+                        else:
+                            UserDeleteNode(tr, rng.choice(sorted(tr.graph.nodes)))
+                        tr.undo()
+                        if rng.random() < 0.4:
+                            tr.redo()
+                            tr.undo()
+                        steps += 1
+                    desc["session_steps"] = steps
+                    after = snap(tr)
+                    if after != first:
+                        dn = [n_ for n_ in first[0] if after[0].get(n_) != first[0][n_]]
+                        de = [e for e in first[1] if after[1].get(e, "<no edge>") != first[1][e]]
+                        bad = "after the session (every edit undone) loaded values differ: nodes %s, edges %s" % (
+                            [(n_, first[0][n_], after[0].get(n_)) for n_ in dn][:3], [(e, first[1][e], after[1].get(e, "<no edge>")) for e in de][:3])
+                if bad is None:
+                    export_to_geff(tr, d1)
+                    again = snap(imp(d1))
+                    if again != first:
+                        bad = "export after the session followed by the same import differs from the first import: %s -> %s" % (first, again)
+                shutil.rmtree(d0, ignore_errors=True)
+                shutil.rmtree(d1, ignore_errors=True)
+                yield desc, bad
+            except Exception as e:  # noqa: BLE001
+                yield desc, "import / session / export raised %s: %s" % (type(e).__name__, str(e)[:200])
+    finally:
+        shutil.rmtree(root, ignore_errors=True)
+
+
 def run(ctx):
     n_edit, n_fresh, n_tid = (40, 16, 40) if ctx.quick() else (260, 100, 400)
     n_zero = 8 if ctx.quick() else 40
@@ -1053,6 +1133,11 @@ def run(ctx):
         stats["reload_cases"] = stats.get("reload_cases", 0) + 1
         if bad:
             violations.append({"what": "internal format, repeated load: " + bad, "input": desc, "signature": "C14:reload"})
+    for desc, bad in import_edit_export_cases(ctx.rng, 10 if ctx.quick() else 100):
+        evals += 1
+        stats["import_edit_export_cases"] = stats.get("import_edit_export_cases", 0) + 1
+        if bad:
+            violations.append({"what": "import, editing session, export, import: " + bad, "input": desc, "signature": "C14:import-edit-export"})
     for label, line, impl in track_id_cases(ctx.rng, n_tid):
         jobs.append(({"kind": "track-id-case"}, label, line, impl))
         evals += 1
@@ -1072,7 +1157,7 @@ def run(ctx):
             divergences.append({"what": "%s: %s" % (label, err), "input": dict(ident, line=line[:1500]),
                                 "impl": "(see what)" if callable(want) else want[:1500], "model": mo[:1500]})
     return {"evaluations": evals, "distinct_nontrivial": len(distinct),
-            "rule": "tracks objects from (i) editing sessions E.run_scenario(seed, i): random forest over 1-8 ids from 1..39, 2D/3D, with (5x5 / 3x3x3 masks) or without segmentation, single-key or per-axis positions, scale None/ones/anisotropic, optional iou / ellipse / perimeter / circularity features and custom attributes, then 4-22 random user actions (add/delete node/edge, swap, attribute updates, painting, undo, redo); (ii) fresh construction: 2-9 ids from 1..199, 3-6 frames, forests with divisions and skip edges and isolated nodes, dyadic (70%) or non-dyadic positions, box or C-shaped masks with several integer dtypes, time key 'time' or 't', track/lineage ids either computed or supplied as arbitrary distinct values (60%), registered custom features (int c1, float score) and an unregistered partial attribute c2; (iii) id-0 construction without segmentation: node id 0 as a dividing root / in the middle of a linear track / as a leaf / isolated (cycled), other ids drawn from {1, 2, 7, 999, 1000003, 2^31+5, 2^40+1} and 3..499, a second lineage with a skip edge, single-key or per-axis positions, 2D/3D. (iv) application-style construction (prepared_cases): a prepared FeatureDict whose Position got its axis names as a tuple or as a list the caller extends afterwards, nodes added with numpy-row positions, read back from the internal format (registry compared with ==) and from CSV with display names. (v) repeated loads (reload_cases): save, load, edit the loaded copy without saving, load again (must equal the files, no shared array), save over, load. Every object is written and re-read in CSV, GEFF and the internal format (evaluation = one object x one format) and the model is run on the same data (X/I/S/C/G/F/T lines); plus direct activate-vs-recompute cases (K). Non-trivial = at least 2 nodes and 1 edge; distinct = distinct (format, nodes, edges, times, positions, track ids).",
+            "rule": "tracks objects from (i) editing sessions E.run_scenario(seed, i): random forest over 1-8 ids from 1..39, 2D/3D, with (5x5 / 3x3x3 masks) or without segmentation, single-key or per-axis positions, scale None/ones/anisotropic, optional iou / ellipse / perimeter / circularity features and custom attributes, then 4-22 random user actions (add/delete node/edge, swap, attribute updates, painting, undo, redo); (ii) fresh construction: 2-9 ids from 1..199, 3-6 frames, forests with divisions and skip edges and isolated nodes, dyadic (70%) or non-dyadic positions, box or C-shaped masks with several integer dtypes, time key 'time' or 't', track/lineage ids either computed or supplied as arbitrary distinct values (60%), registered custom features (int c1, float score) and an unregistered partial attribute c2; (iii) id-0 construction without segmentation: node id 0 as a dividing root / in the middle of a linear track / as a leaf / isolated (cycled), other ids drawn from {1, 2, 7, 999, 1000003, 2^31+5, 2^40+1} and 3..499, a second lineage with a skip edge, single-key or per-axis positions, 2D/3D. (iv) application-style construction (prepared_cases): a prepared FeatureDict whose Position got its axis names as a tuple or as a list the caller extends afterwards, nodes added with numpy-row positions, read back from the internal format (registry compared with ==) and from CSV with display names. (v) repeated loads (reload_cases): save, load, edit the loaded copy without saving, load again (must equal the files, no shared array), save over, load. (vi) import_edit_export_cases: a GEFF store with loaded node and edge properties is imported, edited with every edit undone, exported and imported again. Every object is written and re-read in CSV, GEFF and the internal format (evaluation = one object x one format) and the model is run on the same data (X/I/S/C/G/F/T lines); plus direct activate-vs-recompute cases (K). Non-trivial = at least 2 nodes and 1 edge; distinct = distinct (format, nodes, edges, times, positions, track ids).",
             "samples": samples, "divergences": divergences, "violations": violations, "stats": stats}
 
 
